@@ -6,7 +6,9 @@
 
 #include <complex>
 #include <fstream>
+#include <memory>
 #include <random>
+#include <utility>
 
 #include "libphysica/Integration.hpp"
 #include "libphysica/Linear_Algebra.hpp"
@@ -132,6 +134,162 @@ std::string handle(const std::string& op, Args& a)
 		});
 	}
 	// ---------------------------------------------------------------- 2. Matrix
+	if(op == "c10.vec.move" || op == "c10.mat.move")	// objects moved / swapped / pushed into containers, then requests relative to the REPORTED shape
+	{
+		bool mat = op == "c10.mat.move";
+		size_t np = a.u64();
+		std::vector<std::pair<unsigned, unsigned>> sh(np);
+		for(auto& p : sh)
+		{
+			p.first	 = U(a);
+			p.second = mat ? U(a) : 0;
+		}
+		size_t k = a.u64();
+		struct Step
+		{
+			std::string name;
+			std::vector<unsigned> n;
+		};
+		std::vector<Step> steps;
+		for(size_t i = 0; i < k; i++)
+		{
+			std::string t = a.tok();
+			Step st;
+			size_t pos = t.find(':');
+			st.name	   = t.substr(0, pos);
+			while(pos != std::string::npos)
+			{
+				size_t nx = t.find(':', pos + 1);
+				st.n.push_back((unsigned) strtoull(t.substr(pos + 1, nx == std::string::npos ? std::string::npos : nx - pos - 1).c_str(), nullptr, 10));
+				pos = nx;
+			}
+			const std::string& n = st.name;
+			size_t want			 = (n == "use" || n == "atsize") ? 1 : 2;
+			if(!(n == "mc" || n == "ma" || n == "pb" || n == "sw" || n == "cp" || n == "use" || n == "atsize" || n == "grow") || st.n.size() != want)
+				throw BadArgs("move step " + t);
+			for(size_t j = 0; j < st.n.size() && !(n == "grow" && j == 1); j++)
+				if(st.n[j] >= np)
+					throw BadArgs("slot " + t);
+			steps.push_back(st);
+		}
+		a.end();
+		if(!mat)
+			return run_forked([&](Out& o) {
+				std::vector<std::unique_ptr<Vector>> pool;
+				for(auto& p : sh)
+					pool.push_back(std::unique_ptr<Vector>(new Vector(p.first, 1.5)));
+				std::vector<Vector> list;
+				for(auto& st : steps)
+				{
+					const std::string& n = st.name;
+					if(n == "mc")
+						pool[st.n[1]].reset(new Vector(std::move(*pool[st.n[0]])));
+					else if(n == "ma")
+					{
+						if(st.n[0] != st.n[1])
+							*pool[st.n[1]] = std::move(*pool[st.n[0]]);
+					}
+					else if(n == "pb")
+					{
+						list.push_back(std::move(*pool[st.n[0]]));
+						pool[st.n[1]].reset(new Vector(list.back()));
+					}
+					else if(n == "sw")
+						std::swap(*pool[st.n[0]], *pool[st.n[1]]);
+					else if(n == "cp")
+						pool[st.n[1]].reset(new Vector(*pool[st.n[0]]));
+					else
+					{
+						Vector& v  = *pool[st.n[0]];
+						unsigned d = v.Size();
+						if(n == "use")
+						{
+							for(unsigned i = 0; i < d; i++)
+								v[i] = v[i] + 1.0;
+							v += Vector(d, 0.5);
+							v -= Vector(d, 0.25);
+							const Vector& cv = v;
+							double s		 = cv.Dot(Vector(d, 2.0)) + cv.Norm();
+							for(unsigned i = 0; i < d; i++)
+								s += cv[i];
+							Vector w = v + Vector(d, 1.0);
+							o << d << w.Size() << (std::isnan(s) ? 1 : 0);
+						}
+						else if(n == "atsize")
+							o << v[d];
+						else
+						{
+							v.Resize(d + st.n[1]);
+							for(unsigned i = 0; i < v.Size(); i++)
+								v[i] = 2.5;
+							o << v.Size();
+						}
+					}
+				}
+				for(auto& p : pool)
+					o << p->Size();
+			});
+		return run_forked([&](Out& o) {
+			std::vector<std::unique_ptr<Matrix>> pool;
+			for(auto& p : sh)
+				pool.push_back(std::unique_ptr<Matrix>(new Matrix(p.first, p.second, 1.5)));
+			std::vector<Matrix> list;
+			for(auto& st : steps)
+			{
+				const std::string& n = st.name;
+				if(n == "mc")
+					pool[st.n[1]].reset(new Matrix(std::move(*pool[st.n[0]])));
+				else if(n == "ma")
+				{
+					if(st.n[0] != st.n[1])
+						*pool[st.n[1]] = std::move(*pool[st.n[0]]);
+				}
+				else if(n == "pb")
+				{
+					list.push_back(std::move(*pool[st.n[0]]));
+					pool[st.n[1]].reset(new Matrix(list.back()));
+				}
+				else if(n == "sw")
+					std::swap(*pool[st.n[0]], *pool[st.n[1]]);
+				else if(n == "cp")
+					pool[st.n[1]].reset(new Matrix(*pool[st.n[0]]));
+				else
+				{
+					Matrix& M  = *pool[st.n[0]];
+					unsigned r = M.Rows(), c = M.Columns();
+					if(n == "use")
+					{
+						for(unsigned i = 0; i < r; i++)
+							for(unsigned j = 0; j < c; j++)
+								M[i][j] = M[i][j] + 1.0;
+						M += Matrix(r, c, 0.5);
+						const Matrix& cM = M;
+						Matrix S		 = cM.Plus(Matrix(r, c, 1.0));
+						Matrix T		 = cM.Transpose();
+						Vector w		 = cM.Product(Vector(c, 1.0));
+						double s		 = cM.Norm();
+						for(unsigned i = 0; i < r; i++)
+							s += cM.Return_Row(i).Size();
+						for(unsigned j = 0; j < c; j++)
+							s += cM.Return_Column(j).Size();
+						o << r << c << T.Rows() << T.Columns() << w.Size() << S.Rows() << (std::isnan(s) ? 1 : 0);
+					}
+					else if(n == "atsize")
+						o << M[r].size();
+					else
+					{
+						M.Resize(r + st.n[1], c);
+						for(unsigned i = 0; i < M.Rows(); i++)
+							for(unsigned j = 0; j < M.Columns(); j++)
+								M[i][j] = 2.5;
+						o << M.Rows() << M.Columns();
+					}
+				}
+			}
+			for(auto& p : pool)
+				o << p->Rows() << p->Columns();
+		});
+	}
 	if(op == "c10.mat.hist" || op == "c10.vec.hist")   // mutators and guarded requests on ONE object, in ONE child
 	{
 		bool mat   = op == "c10.mat.hist";
